@@ -52,8 +52,11 @@ InitObjs == { C!Obj(<<>>, <<B(1)>>),
               C!Obj(<<2, 2>>, <<B(1), B(2), B(3), B(4)>>),
               C!Obj(<<1, 2>>, <<B(3), B(1)>>),
               C!Obj(<<2, 1>>, <<B(2), B(4)>>) }
-\* "negarray": the caller's array holds the representative -x for the units at odd flat positions
-Routes == {"array", "list", "object", "negarray"}
+\* "negarray": the caller's array holds the representative -x for the units at odd flat positions;
+\* "intdata": the caller's array has an integer dtype; "fortran": it is Fortran-contiguous (the idiom
+\* np.array([t, x, y]).T); "strided": it is a non-contiguous view with a negative stride.  The packaging of
+\* the numbers does not change the object that is built.
+Routes == {"array", "list", "object", "negarray", "intdata", "fortran", "strided"}
 HP == C!Obj(hshape, hpc)
 HD == C!Obj(hshape, hdc)
 KeepHeld == UNCHANGED <<held, hshape, hpc, hdc>>
@@ -195,15 +198,17 @@ Stack ==
      /\ shape' = C!Stack(<<P, OP>>).shape /\ pc' = C!Stack(<<P, OP>>).cell /\ dc' = C!Stack(<<D, OD>>).cell
      /\ last' = [a |-> "stack"]
 
-\* type(obj).combine([obj, other])
-Combine(which) ==
+\* type(obj).combine([obj, other]) / type(obj).combine([other, obj]); the other object holds float data scaled by a
+\* non-integer factor (the same units)
+Combine(which, order) ==
   LET O == IF which = "rev" THEN C!Obj(shape, Rev(pc))
            ELSE IF which = "unit" THEN C!Obj(<<>>, <<B(K)>>)
            ELSE C!Obj(<<2>>, <<B(K), B(1)>>)
+      RP == IF order = "first" THEN C!Combine(<<P, O>>) ELSE C!Combine(<<O, P>>)
+      RD == IF order = "first" THEN C!Combine(<<D, O>>) ELSE C!Combine(<<O, D>>)
   IN /\ Step /\ Len(pc) + Len(O.cell) <= MaxSize
-     /\ shape' = C!Combine(<<P, O>>).shape /\ pc' = C!Combine(<<P, O>>).cell
-     /\ dc' = C!Combine(<<D, O>>).cell
-     /\ last' = [a |-> "combine", oshape |-> O.shape, ocell |-> O.cell]
+     /\ shape' = RP.shape /\ pc' = RP.cell /\ dc' = RD.cell
+     /\ last' = [a |-> "combine", oshape |-> O.shape, ocell |-> O.cell, order |-> order]
 
 AsType(dt) ==
   /\ Step /\ UNCHANGED <<shape, pc, dc>>
@@ -252,7 +257,9 @@ Next ==
   \/ \E i \in 0..(MaxSize - 1) : PutHeld(i)
   \/ SetHeld
   \/ Stack
-  \/ \E which \in {"rev", "unit", "pair"} : Combine(which)
+  \/ \E which \in {"rev", "unit", "pair"} : \E order \in {"first", "last"} :
+        /\ Lean => (order = "last") = (which = "rev")
+        /\ Combine(which, order)
   \/ \E dt \in {"complex128", "float32", "float64"} : AsType(dt)
   \/ WithQueries /\ \E q \in Queries(cls) : Query(q)
 
